@@ -1,10 +1,10 @@
 #!/bin/bash
-# usage: seedcheck.sh <ID> <seed-out-dir> [check-tier]
+# usage: seedcheck.sh <ID> <seed-out-dir> [check-tier] [logs-name]
 # Verifies a seeded change independently (fresh worktree: builds, baseline tests of touched packages pass, demo fails
 # with the patch and passes without) and then runs the /verif check for <ID> against the patched tree through an
 # overlay (never touching /repo). Prints a JSON summary.
 set -u
-id="$1"; out="$2"; tier="${3:-quick}"
+id="$1"; out="$2"; tier="${3:-quick}"; logs="${4:-$1}"
 . /verif/env.sh
 wt=$(mktemp -d /tmp/seedwt.XXXXXX)
 trap 'git -C /repo worktree remove --force "$wt" >/dev/null 2>&1; rm -rf "$wt" "$ovd"' EXIT
@@ -42,4 +42,4 @@ VERIF_OVERLAY="$ovd/ov.json" timeout 3000 /verif/run.sh "$id" "$tier" > "$ovd/ch
 grep -E "^VIOLATION|signature:|^$id tier" "$ovd/check.log" | head -12
 nviol=$(grep -c "^VIOLATION" "$ovd/check.log")
 echo "SUMMARY {\"id\":\"$id\",\"build_rc\":$rc_build,\"demo_without_rc\":$rc_without,\"demo_with_rc\":$rc_with,\"tests_rc\":$rc_tests,\"check_rc\":$rc_check,\"violations\":$nviol}"
-mkdir -p "/verif/seeded/$id.logs" && cp "$ovd"/*.log "/verif/seeded/$id.logs/" 2>/dev/null
+mkdir -p "/verif/seeded/$logs.logs" && cp "$ovd"/*.log "/verif/seeded/$logs.logs/" 2>/dev/null
